@@ -56,6 +56,15 @@ CHECKS = {
  "C19": ("exploration", "property-based testing over configurations with strict specification-derived decoders per box and record",
          "Every fixed-layout box/record of progressive files, init segments and media segments is decoded strictly (size, version, flags, reserved bits, positions). The progressive tkhd length/flags deviations are listed open findings; its remaining fields are still judged at the shifted positions.",
          "Trusted: my reading of ISO/IEC 14496-12/-14/-15 and the AV1/VP9/Opus bindings (appendix A of DESIGN.md).", "3/C19"),
+ "C12": ("exploration", "property-based testing with a panic hook, overflow-checked build and a watchdog thread per case (parsers on generated/mutated bitstreams, raw-valued API histories); libFuzzer targets for the thorough tier",
+         "Every public parser, the progressive API and the fragmented API are driven with arbitrary and boundary values; any panic, arithmetic overflow or call exceeding the deadline (10 s, confirmed at 60 s) is a violation.",
+         "Trusted: overflow-checked release build behaves like the user's build apart from the checks; contract_test/assert_invariant are documented to panic and excluded.", "3/C12"),
+ "C17": ("exploration", "property-based testing: byte equality across instances, 1..16 concurrent threads, 9 sink types and pairs of equivalent API paths; plus a compile probe for the type-level Send/Sync clause",
+         "Generated pools of histories are replayed in other instances, threads and sinks and through alias/finish/none/encode paths; all must equal the single-threaded reference byte for byte.",
+         "The 'for all W: Send' clause is decided by the compiler on harness/send_probe, not by generated search (declared).", "3/C17"),
+ "C20": ("exploration", "property-based testing: subprocess (built CLI) vs in-process library differential over a generated option grammar and input-file classes",
+         "Generated command lines are run against the binary built from the working tree; output file and reported counts must equal the library's, invalid cases must exit non-zero without a completion report, validate verdicts follow the stated rule, info terminates and lists the reader's top-level boxes.",
+         "Trusted: in-process run uses the same single-frame-at-t=0 convention the CLI documents; 20 s process deadline.", "3/C20"),
 }
 NOT_YET = {
 }
